@@ -10,10 +10,10 @@
    _tskitmodule.c) cannot be exhibited by a Gallina model: only schedule independence of
    the combination logic is proved. *)
 From Coq Require Import List ZArith QArith.
-From TskVerif Require Import C08.Model C08.Incremental C08.Afs C08.Shapes C08.PairSpan C08.Rf C08.RelVec
+From TskVerif Require Import C08.Model C08.Incremental C08.Afs C08.Shapes C08.PairSpan C08.Rf C08.RelVec C08.Kc
   C08.WindowProofs C08.ChunkProofs C08.IncrementalProofs C08.AccountProofs
   C08.ForestProofs C08.StateProofs C08.SweepStateProofs C08.FullBranchProofs C08.AfsProofs C08.ShapesProofs
-  C08.PairSpanProofs C08.PairSpanFull C08.RfProofs C08.RelVecProofs.
+  C08.PairSpanProofs C08.PairSpanFull C08.RfProofs C08.RelVecProofs C08.KcProofs.
 Import ListNotations.
 Open Scope Q_scope.
 
@@ -238,3 +238,17 @@ Theorem relatedness_vector_span_normalise_refuted :
     qlist_eqb (grv_code true time W i segs ws) [9] = true /\
     qlist_eqb (grv_spec true time W i segs ws) [3] = true.
 Proof. exact grv_ignores_span_normalise. Qed.
+
+(* Tree-sequence level KC distance = span-weighted sum of the per-tree-pair distances: the sum
+   is additive over any split of a window, hence over any refinement of the breakpoints (in
+   particular the common refinement of the two sequences' breakpoints), and cutting a tree
+   pair at an extra breakpoint changes nothing.  [full; the per-tree-pair squared distance
+   (Kc.kc2, exact) and the span-weighted mean are compared with Tree.kc_distance /
+   TreeSequence.kc_distance on every run; finding C08-F6 concerns the implementation's
+   incremental update with internal samples] *)
+Theorem kc_tree_sequence_additive :
+  (forall segs a b c, a <= b -> b <= c -> kc_sum segs a c == kc_sum segs a b + kc_sum segs b c) /\
+  (forall segs a t, incr (a :: t) -> qsum (windowed (kc_sum segs) (a :: t)) == kc_sum segs a (last (a :: t) 0)) /\
+  (forall l m r d rest a b, l <= m -> m <= r ->
+     kc_sum (mkks l r d :: rest) a b == kc_sum (mkks l m d :: mkks m r d :: rest) a b).
+Proof. exact kc_all. Qed.
